@@ -3,6 +3,7 @@ use crate::ev::Tier;
 use std::path::PathBuf;
 
 pub mod c01;
+pub mod c04;
 pub mod c09;
 pub mod c10;
 pub mod c14;
@@ -28,6 +29,8 @@ pub fn run(id: &str, ctx: &Ctx) -> i32 {
         "C01" => c01::run01(ctx),
         "C02" => c01::run02(ctx),
         "C03" => c01::run03(ctx),
+        "C04" => c04::run04(ctx),
+        "C06" => c04::run06(ctx),
         "C09" => c09::run(ctx),
         "C10" => c10::run(ctx),
         "C14" => c14::run(ctx),
